@@ -341,6 +341,13 @@ func (s *StreamJoin) receiveRecord(ctx ExecutionContext, produce ProduceFn, myRe
 		key[i] = value
 	}
 
+	for i := range key {
+		if key[i].TypeID == octosql.TypeIDNull {
+			// The keys come from equality predicates, and NULL = anything is never true: such a record can't match.
+			return nil
+		}
+	}
+
 	if !oneStreamRemains {
 		// Update count in my record tree
 		// If only one stream remains, we won't be using it anymore, so we don't need to update it.
